@@ -133,6 +133,7 @@ type c14World struct {
 	tssOn    int
 	eth4On   int
 	eth4Head xibcethtypes.Header
+	twin     string // "a" / "b": which of the two twins this process is (asymmetric `discard` ops)
 	t0       uint64 // wall-clock anchor of the run (VERIF_C14_T0), the same for both twins
 	bias     int64  // seconds relative to T0 at which this twin delivers `ethnow`
 	erc20   [2]common.Address
@@ -503,6 +504,54 @@ func (w *c14World) step(line string) {
 			break
 		}
 		w.deliver("bscupd", c, msgs...)
+	case "discard": // ASYMMETRIC: only the named twin runs an execution that is thrown away (cache context dropped, as
+		// CheckTx / Simulate / a rolled-back transaction would): both twins keep the same committed state but have
+		// different process histories. Nothing of the execution is printed; the op line is identical in both twins.
+		w.note("discard:" + f[2])
+		if f[1] != w.twin {
+			break
+		}
+		_, _ = safely(func() {
+			switch f[2] {
+			case "bscnext": // the next genuine BSC header is verified on a dropped context (fills any verification cache)
+				if w.bscOn < 0 || w.bscNext >= len(w.bscHdrs) {
+					return
+				}
+				c := w.ch[w.bscOn]
+				h := w.bscHdrs[w.bscNext].ToHeader()
+				cctx, _ := c.GetContext().CacheContext()
+				_ = c.App.XIBCKeeper.ClientKeeper.UpdateClient(cctx, "bsc", &h)
+			case "tmupd": // a Tendermint client update on a dropped context
+				if w.path == nil {
+					return
+				}
+				i := ci(3)
+				c, cp := w.ch[i], w.ch[1-i]
+				if hdr, err := c.ConstructUpdateTMClientHeader(cp, cp.ChainID); err == nil {
+					cctx, _ := c.GetContext().CacheContext()
+					_ = c.App.XIBCKeeper.ClientKeeper.UpdateClient(cctx, cp.ChainID, hdr)
+				}
+			}
+		})
+	case "bscforged": // the next BSC header with its seal replaced by a signature of a stranger: same seal hash, other signer.
+		// Rejected (coinbase mismatch) by every node — unless a node remembers the signer it recovered for that seal hash.
+		if w.bscOn < 0 || w.bscNext >= len(w.bscHdrs) {
+			w.note("bscforged:skipped")
+			break
+		}
+		c := w.ch[w.bscOn]
+		h := w.bscHdrs[w.bscNext].ToHeader()
+		h.Extra = append([]byte{}, h.Extra...)
+		key, _ := crypto.ToECDSA(crypto.Keccak256([]byte("c14-forger")))
+		if sig, err := crypto.Sign(c14BscSealHash(&h, 56).Bytes(), key); err == nil && len(h.Extra) >= 65 {
+			copy(h.Extra[len(h.Extra)-65:], sig)
+		}
+		msg, err := clienttypes.NewMsgUpdateClient("bsc", &h, c.SenderAcc)
+		if err != nil {
+			w.note("bscforged:pack-error")
+			break
+		}
+		w.deliver("bscforged", c, msg)
 	case "tssnew": // TSS client (no consensus heights): created on chain 0's side of the script, sender = relayer
 		i := ci(1)
 		c := w.ch[i]
@@ -885,7 +934,7 @@ func c14Child(t *testing.T) {
 		t.Fatal(err)
 	}
 	defer of.Close()
-	w := &c14World{t: t, out: bufio.NewWriter(of), ethOn: -1, bscOn: -1, tssOn: -1, eth4On: -1, t0: uint64(envInt("VERIF_C14_T0", 0)), bias: envInt("VERIF_C14_BIAS", 0), repo: os.Getenv("VERIF_C14_REPO")}
+	w := &c14World{t: t, out: bufio.NewWriter(of), ethOn: -1, bscOn: -1, tssOn: -1, eth4On: -1, t0: uint64(envInt("VERIF_C14_T0", 0)), bias: envInt("VERIF_C14_BIAS", 0), twin: os.Getenv("VERIF_C14_TWIN"), repo: os.Getenv("VERIF_C14_REPO")}
 	defer w.out.Flush()
 	var lines []string
 	for _, l := range strings.Split(string(script), "\n") {
@@ -991,6 +1040,10 @@ func c14Script(r *Rec, n int, eth int) []string {
 			s = append(s, fmt.Sprintf("commit %d %d", c, 1+rng.Intn(3)))
 			r.Count("op.commit")
 		case k < 30:
+			if rng.Intn(3) == 0 {
+				s = append(s, fmt.Sprintf("discard %s tmupd %d", []string{"a", "b"}[rng.Intn(2)], c))
+				r.Count("op.discard-tmupd")
+			}
 			s = append(s, fmt.Sprintf("tmupd %d", c))
 			r.Count("op.tmupd")
 		case k < 36:
@@ -1011,6 +1064,12 @@ func c14Script(r *Rec, n int, eth int) []string {
 			}
 			s = append(s, fmt.Sprintf("bscupd %d", 1+rng.Intn(4)))
 			r.Count("op.bscupd")
+			if rng.Intn(2) == 0 {
+				// process history differs: one twin has already verified the next header on a dropped context, then both
+				// get its forged-seal copy, then the genuine one
+				s = append(s, fmt.Sprintf("discard %s bscnext", []string{"a", "b"}[rng.Intn(2)]), "bscforged", "bscupd 1")
+				r.Count("op.bscforged")
+			}
 		case k < 42:
 			if !erc[c] {
 				s = append(s, fmt.Sprintf("erc20 %d", c))
@@ -1227,8 +1286,8 @@ func c14PairRun(t *testing.T, shard int, tier string, pair int, script []string,
 	}
 	t0 := fmt.Sprintf("VERIF_C14_T0=%d", time.Now().Unix()+lead)
 	cfgs := []c14ChildCfg{
-		{name: "a", cwd: mk("cwd-a"), env: []string{t0, "VERIF_C14_BIAS=-2", "GOMAXPROCS=1", "GOGC=25", "TMPDIR=" + mk("tmp-a"), "HOME=" + mk("home-a"), "TZ=UTC", "LANG=C", "C14_NOISE=alpha"}},
-		{name: "b", cwd: mk("cwd-b"), env: []string{t0, "VERIF_C14_BIAS=2", "VERIF_C14_START_DELAY=3", "GOMAXPROCS=4", "GOGC=400", "TMPDIR=" + filepath.Join(dir, "no-such-dir", "tmp"), "HOME=" + filepath.Join(dir, "no-such-dir", "home"),
+		{name: "a", cwd: mk("cwd-a"), env: []string{t0, "VERIF_C14_TWIN=a", "VERIF_C14_BIAS=-2", "GOMAXPROCS=1", "GOGC=25", "TMPDIR=" + mk("tmp-a"), "HOME=" + mk("home-a"), "TZ=UTC", "LANG=C", "C14_NOISE=alpha"}},
+		{name: "b", cwd: mk("cwd-b"), env: []string{t0, "VERIF_C14_TWIN=b", "VERIF_C14_BIAS=2", "VERIF_C14_START_DELAY=3", "GOMAXPROCS=4", "GOGC=400", "TMPDIR=" + filepath.Join(dir, "no-such-dir", "tmp"), "HOME=" + filepath.Join(dir, "no-such-dir", "home"),
 			"TZ=Asia/Kolkata", "LANG=tr_TR.UTF-8", "C14_NOISE=beta", "GODEBUG=madvdontneed=1", "XDG_CACHE_HOME=/proc/none"}},
 	}
 	var outs [2][]string
